@@ -1,6 +1,7 @@
 import Urandom.Driver.Word
 import Urandom.Driver.Block
 import Urandom.Driver.Distr
+import Urandom.Driver.System
 /- Driver for the `fillb` stream: byte fills of every generator through the typed APIs. -/
 namespace Urandom.Driver
 open Urandom Urandom.ChaCha Urandom.Block
@@ -40,7 +41,18 @@ def fillbRequest (kv : KV) : Option String := do
     let (_, s1) ← chachaOps N s0 pre
     let (b, s2) := Block.fill (chachaCore N) len s1
     pure (fmt b (toString (leNat (nextN (chachaCore N) 8 s2).1)))
+  -- System<N> over the scripted entropy source with every fetch succeeding: pre ops, the fill, one more u64
+  let systemCase : Option String := do
+    let N := (kv.nat? "n").getD 31
+    let ops ← pre.mapM parseSop?
+    let outs := SystemGen.run SystemGen.natLabels N (SystemGen.St.new SystemGen.natLabels N []) (ops ++ [.fill len, .u64])
+    let b ← outs[ops.length]?
+    let nx ← outs[ops.length + 1]?
+    match b with
+    | .fetched k n => pure ("b:" ++ hexBytes ((List.range n).map fun i => BitVec.ofNat 8 (SystemGen.tagByte k i)) ++ " canary:ok init:ok ret:" ++ toString len ++ " next:" ++ showSout nx)
+    | _ => pure "panic"
   match gen with
+  | "system" => systemCase
   | "xoshiro" => wordCase Xoshiro.gen (Xoshiro.fromSeed (BitVec.ofNat 64 seed))
   | "splitmix" => wordCase SplitMix.gen (BitVec.ofNat 64 seed)
   | "wyrand" => wordCase Wyrand.gen (BitVec.ofNat 64 seed)
